@@ -1,4 +1,119 @@
 import OdxVerif.Common.Sexp
-/-! driver stub for the comparam family (to be written) -/
-open OdxVerif
-def main : IO Unit := driverMain fun _ => "(not-implemented)"
+import OdxVerif.Spec.Comparam
+/-! line-protocol driver for the communication-parameter model and specification (property C15)
+
+request  `(cp <layer> (gc (<name> <proto>) …) (acc (<proto> <choice> …) …))`
+  `<layer>` = `(L <KIND> (insts <inst> …) (parents <layer> …))`
+  `<inst>`  = `(I <tag> <id> <proto> <value> <spec>)`       `<proto>` = `-` | `<str>`
+  `<value>` = `<str>` | `(v <value> …)`                     `<str>` = `x` + hex of the UTF-8 bytes
+  `<spec>`  = `(S <name> <default>)` | `(C <name> (subs <spec> …) -|(v <value> …))`
+  `<choice>` = tag of the instance the implementation's `get_comparam` chose for the n-th name of
+              `accNames` under this protocol, or `-`
+reply    `(refs <tag> …) (eff <tag> …) (gc <tag>|- …) (cand (<tag> …) …) (acc (<res> ×15) …) (sacc (<res>|? ×15) …)`
+  `refs` model `comparam_refs` in order; `eff` the specification's effective definitions (sorted);
+  `gc` model `get_comparam`; `cand` the specification's acceptable answers (sorted); `acc` model
+  accessors per protocol; `sacc` specification accessors evaluated on the implementation's choices
+  `<res>` = `-` | `(i n)` | `(b t|f)` | `(m f <neg> <mant> <exp>)` | `(m inf <neg>)` | `(m nan)` | `(e odx|foreign)` -/
+open OdxVerif OdxVerif.Comparam OdxVerif.Gen
+
+def parseKind (s : String) : Option LayerKind := LayerKind.all.find? fun k => k.odxName == s
+
+def hexStr? (s : String) : Option String :=
+  match s.toList with
+  | 'x' :: cs => do
+    let bs ← bytesOfHexChars cs
+    String.fromUTF8? (ByteArray.mk (bs.map UInt8.ofNat).toArray)
+  | _ => none
+
+def parseStr : Sexp → Option String
+  | .atom a => hexStr? a
+  | _ => none
+
+def parseProto : Sexp → Option (Option String)
+  | .atom "-" => some none
+  | s => (parseStr s).map some
+
+partial def parseVal : Sexp → Option CVal
+  | .atom a => (hexStr? a).map .str
+  | .list (.atom "v" :: xs) => (xs.mapM parseVal).map .list
+  | _ => none
+
+partial def parseSpec : Sexp → Option CpSpec
+  | .list [.atom "S", n, d] => do pure (.simple (← parseStr n) (← parseStr d))
+  | .list [.atom "C", n, .list (.atom "subs" :: ss), d] => do
+    let n ← parseStr n
+    let ss ← ss.mapM parseSpec
+    let d ← match d with
+      | .atom "-" => some none
+      | .list (.atom "v" :: xs) => (xs.mapM parseVal).map some
+      | _ => none
+    pure (.complex n ss d)
+  | _ => none
+
+def parseInst : Sexp → Option Inst
+  | .list [.atom "I", t, i, p, v, s] => do
+    pure ⟨← t.asNat?, ← parseStr i, ← parseProto p, ← parseVal v, ← parseSpec s⟩
+  | _ => none
+
+partial def parseLayer : Sexp → Option Layer
+  | .list [.atom "L", .atom k, .list (.atom "insts" :: is), .list (.atom "parents" :: ps)] => do
+    pure (.mk (← parseKind k) (← is.mapM parseInst) (← ps.mapM parseLayer))
+  | _ => none
+
+def tf (b : Bool) : String := if b then "t" else "f"
+def tagStr : Option Inst → String
+  | some c => toString c.tag
+  | none => "-"
+
+def decStr : Dec → String
+  | .fin n m e => s!"(m f {tf n} {m} {e})"
+  | .inf n => s!"(m inf {tf n})"
+  | .nan => "(m nan)"
+
+def resStr : Res → String
+  | .none => "-"
+  | .int i => s!"(i {i})"
+  | .bool b => s!"(b {tf b})"
+  | .micro d => decStr d
+  | .err .odx => "(e odx)"
+  | .err .foreign => "(e foreign)"
+
+def sortedTags (cs : List Inst) : String :=
+  let ts := (cs.map (·.tag)).toArray.qsort (· < ·) |>.toList.eraseDups
+  " ".intercalate (ts.map toString)
+
+/-- the short names the accessors look up, in the order of the `<choice>` lists -/
+def accNames : List String :=
+  ["CP_CANFDTxMaxDataLength", "CP_UniqueRespIdTable", "CP_Baudrate", "CP_CANFDBaudrate", "CP_CanFuncReqId",
+   "CP_DoIPLogicalGatewayAddress", "CP_DoIPLogicalTesterAddress", "CP_DoIPLogicalFunctionalAddress",
+   "CP_DoIPRoutingActivationTimeout", "CP_DoIPRoutingActivationType", "CP_TesterPresentTime"]
+
+def handle (sx : Sexp) : String :=
+  match sx with
+  | .list [.atom "cp", l, .list (.atom "gc" :: qs), .list (.atom "acc" :: ps)] =>
+    let qs? := qs.mapM fun
+      | .list [n, p] => do pure ((← parseStr n), (← parseProto p))
+      | _ => none
+    let ps? : Option (List (Option String × List (Option Nat))) := ps.mapM fun
+      | .list (p :: ch) => do pure ((← parseProto p), ch.map Sexp.asNat?)
+      | _ => none
+    match parseLayer l, qs?, ps? with
+    | some L, some qs, some ps =>
+      let refs := available L
+      let all := allInsts L
+      let gc := qs.map fun (n, p) => tagStr (getComparamIn refs n p)
+      let cand := qs.map fun (n, p) => s!"({sortedTags (candidates L n p)})"
+      let acc := ps.map fun (p, _) =>
+        s!"({" ".intercalate (Acc.all.map fun a => resStr (accessor a fun n => getComparamIn refs n p))})"
+      let sacc := ps.map fun (_, ch) =>
+        let choice : String → Option Inst := fun n =>
+          match (accNames.zip ch).find? (·.1 == n) with
+          | some (_, some t) => all.find? (·.tag == t)
+          | _ => none
+        s!"({" ".intercalate (Acc.all.map fun a => match specAccessor a choice with | some r => resStr r | none => "?")})"
+      s!"(refs {" ".intercalate (refs.map fun c => toString c.tag)}) (eff {sortedTags (effective L)}) " ++
+      s!"(gc {" ".intercalate gc}) (cand {" ".intercalate cand}) (acc {" ".intercalate acc}) (sacc {" ".intercalate sacc})"
+    | _, _, _ => "(bad-args)"
+  | _ => "(bad-op)"
+
+def main : IO Unit := driverMain handle
